@@ -14,9 +14,24 @@ TRUSTED = [
     "Go harness harness/cmd/hC04 (scenario/ID generators, in-process gRPC stream, byte-exact mapping of returned "
     "bytes to document numbers inside the store child) and harness/internal/{storectl,fracbuild}",
     "export files storeapi/export_verif_c04.go and frac/export_verif_c04.go (state builders for the unit-level classes)",
-    "zstd and the docs cache (key = uint32 of the block offset) are NOT modelled; the end-to-end cases run the "
+    "hand-written model props/C04/coq/ModelDocsCache.v of disk.DocsReader.ReadDocsFunc in front of "
+    "cache.Cache.GetWithError (lookup by uint32 key, load on miss, a failed load stores nothing, offsets above "
+    "MaxUint32 bypass the cache as repaired by 871e0d8; eviction of any key at any time = cleaner pass / Reset; "
+    "read_v0 = key uint32(blockOffset) for every offset) and props/C04/coq/ModelSlots.v of the worker-slot "
+    "semaphore of fracmanager.Fetcher (fetchDocsAsync as a transition system: the select of the dispatch loop "
+    "(slot / ctx.Done), worker end with error bookkeeping + cancel() + slot release, client cancel; any "
+    "interleaving as a schedule; the seeded early exit C04-m9 as the variant leak = true); both tied to /repo by "
+    "the classes docs-cache-far-offset and fetch-slots-history / fetch-after-history, not verified code",
+    "export files cache/export_verif_c04.go (keys held by a cache), fracmanager/export_verif_c04.go (slots of the "
+    "fetcher's semaphore in use / capacity), storeapi/export_verif_c04_slots.go (the store's fetcher); the child "
+    "sets conf.FetchWorkers (1, 2, 3 or the default) before the store's GrpcV1 is created",
+    "zstd is NOT modelled (a decoded block is an abstract value in the docs-cache model; the generation "
+    "accounting and the concurrency inside cache.Cache are property C18); the end-to-end cases run the "
     "position layer on document descriptors in the harness's block layout (one block per bulk), real bytes and "
-    "real positions only in the unit-level classes",
+    "real positions only in the unit-level classes; in the slot model the requests of a history follow one "
+    "another (slots held by concurrent requests enter C04_fetch_slots_every_schedule as the number u only) and "
+    "whether a call made with a context that is already done returns the context's error or the documents "
+    "(the select is random) is neither modelled nor compared",
 ]
 ASSUME = [
     "time-range/occupancy pruning is sound for stored documents (hypothesis info_sound B of thm C04_fetch_exact; "
@@ -28,6 +43,10 @@ ASSUME = [
     "a decoded doc block has at most 2^30 bytes and a docs file at most 2^32 blocks (layout_wf; the writer panics "
     "beyond 30-bit offsets)",
     "the store is quiescent during a request; the active provider's snapshot guard is stated and tested at unit level",
+    "C04_fetch_slots_returned: the calls of a history follow one another on the Fetcher (each under any interleaving "
+    "of its own goroutines); a buffered Go channel of capacity W is a counter 0..W, sync.Once / WaitGroup as documented",
+    "C04_docs_cache_transparent: one reader at a time (the concurrency of cache.Cache is C18); an entry holds the value "
+    "its load returned (no corruption of cached blocks)",
 ]
 RULE = ("real stores (1-4 fractions, sealed + at most one active, optional restart, with/without sorted docs; some "
         "sealed fractions span several ID blocks of 4096) x requests: present / absent / mixed in any order, absent IDs "
@@ -45,7 +64,21 @@ RULE = ("real stores (1-4 fractions, sealed + at most one active, optional resta
         "PackDocPos/Unpack (offsets around 2^30, block indices up to 2^32-1), GroupDocsOffsets, IndexFetch over a real "
         "DocsReader on files of 1-4 packed/compressed blocks (permuted block table, nil entries, block index past the "
         "table), activeFetchIndex.GetDocPos (snapshot of k blocks, positions in blocks < k, = k, > k), getDocPosByLIDs "
-        "(one and several position blocks, LIDs around the block border and past the table). non-trivial = request mixes present and absent IDs or needs more than one batch "
+        "(one and several position blocks, LIDs around the block border and past the table); class docs-cache-far-offset: "
+        "a SPARSE file with real compressed/packed doc blocks written at offsets x and x + k*2^32 (k = 1..3; x = 0, "
+        "small, 2^31, just below 2^32, MaxUint32 itself, random; some blocks undecodable) read through the real "
+        "disk.DocsReader with a real cache.Cache (no cleaner / cleaner with a small / a large limit): repeated reads, "
+        "offsets sharing their low 32 bits one after the other in both orders, reads past the end of the file and of "
+        "undecodable blocks (twice), cleaner passes (evicted keys recorded), cache Reset - every read must return the "
+        "block stored at the requested offset (permanent regression for 871e0d8); scenario kind 'slots' (3-5 "
+        "fractions with disjoint time ranges, the last one active; conf.FetchWorkers 1, 2, 3 or default; no fault / "
+        "a damaged sealed docs file / the active Fetch panics): class fetch-slots-history = a history on the store's "
+        "one long-lived Fetcher: live FetchDocs calls, >= FetchWorkers calls with a context cancelled before the call, "
+        ">= FetchWorkers calls whose deadline has passed, calls cancelled by the client at the schedule point "
+        "fetch.start, >= FetchWorkers calls failing in one fraction (sibling cancellation), after each call the number "
+        "of taken worker slots is read: every call must return (15 s limit) and leave no slot in use; then class "
+        "fetch-after-history = ordinary requests through GrpcV1.Fetch under a 20 s deadline that must deliver exactly "
+        "the stored documents (a request ending only by its deadline is reported as not terminating). non-trivial = request mixes present and absent IDs or needs more than one batch "
         "(calc: 0 < found bytes < number of IDs); distinct by input")
 
 
